@@ -49,7 +49,7 @@ func init() {
 		},
 		Batches:      func(tier string) int { return map[string]int{"quick": 8, "thorough": 16}[tier] },
 		Run:          run,
-		ChildTimeout: func(tier string) time.Duration { return 30 * time.Minute },
+		ChildTimeout: func(tier string) time.Duration { return 90 * time.Minute },
 		MinEvals:     func(tier string) int { return map[string]int{"quick": 15000, "thorough": 500000}[tier] },
 	})
 }
@@ -248,7 +248,7 @@ func inD6Class(src []byte) bool {
 }
 
 // neutralise rewrites every ignored run: a multi-byte character inside a
-// comment becomes `x`, a BOM outside comments is removed. Tokens are untouched.
+// comment becomes `x`, a BOM outside comments becomes a blank. Tokens are untouched.
 func neutralise(src []byte) []byte {
 	toks, lerr := syntax.Tokens(src)
 	type gap struct{ s, e int }
@@ -288,6 +288,9 @@ func neutralise(src []byte) []byte {
 			}
 			if inComment {
 				out = append(out, 'x')
+			} else {
+				// a BOM between tokens: a blank keeps the neighbours apart
+				out = append(out, ' ')
 			}
 			i += w
 		}
@@ -466,7 +469,7 @@ func (k *ck) syntaxWitnessCases(env *build.Env) {
 
 func (k *ck) syntaxErrors() {
 	c := k.c
-	nDocs := c.Scale(60, 1900)
+	nDocs := c.Scale(60, 1200)
 	perDoc := c.Scale(24, 40)
 	sr := c.RNG(10)
 	m := schemagen.Gen(sr, schemagen.DefaultOptions(sr))
@@ -563,7 +566,7 @@ type valDetail struct {
 func (k *ck) validationErrors() {
 	c := k.c
 	nSchemas := c.Scale(4, 30)
-	nDocs := c.Scale(70, 330)
+	nDocs := c.Scale(70, 250)
 	nops := len(invaliddoc.Operators)
 	for si := 0; si < nSchemas; si++ {
 		sr := c.RNG(20, uint64(si))
@@ -770,7 +773,7 @@ type fieldDetail struct {
 func (k *ck) fieldErrors() {
 	c := k.c
 	nSchemas := c.Scale(4, 30)
-	nDocs := c.Scale(45, 300)
+	nDocs := c.Scale(45, 200)
 	for si := 0; si < nSchemas; si++ {
 		sr := c.RNG(30, uint64(si))
 		m := schemagen.Gen(sr, schemagen.DefaultOptions(sr))
